@@ -1026,6 +1026,12 @@ class LaterFS(FSModel):
     the file is gone, else returns the (possibly different) current mtime; isfile is the current existence"""
     later = False
 
+    def cur_exists(self, p):
+        return fs2_exists(p) if self.later else fs_isfile(p)
+
+    def cur_mtime(self, p):
+        return fs2_mtime(p) if self.later else fs_mtime(p)
+
     def getmtime(self, I, st, args, kwargs, node):
         if not self.later:
             return FSModel.getmtime(self, I, st, args, kwargs, node)
@@ -1070,6 +1076,25 @@ class FSCheck(FSGetSource):
         FSGetSource.configure(self, I)
         self.fs = LaterFS(self.platform)
         self.fs.install(I)
+        # a loop inside the closure (over the search paths): none of the candidates seen so far exists now or is the loaded file
+        import ast
+        from pyvc import extract
+        try:
+            node, _ = extract.nested_function_ast(self.target, "uptodate")
+        except LookupError:
+            node = None
+        loops = [n for n in ast.walk(node) if isinstance(n, (ast.For, ast.While))] if node is not None else []
+        if loops:
+            names = {x.id for x in ast.walk(loops[0]) if isinstance(x, ast.Name) and isinstance(x.ctx, ast.Store)}
+            names -= {x.id for x in ast.walk(loops[0].target) if isinstance(x, ast.Name)} if hasattr(loops[0], "target") else set()
+            c = self
+
+            def inv(ctx):
+                T = c.opened_path(Outcome(ctx.st, "return", None, 0))
+                j = z3.Int(fresh_name("j"))
+                return [z3.ForAll([j], z3.Implies(z3.And(0 <= j, j < ctx.k), z3.And(z3.Not(fs2_exists(c.cand(j))), c.cand(j) != T)))]
+
+            I.loops[("FileSystemLoader.get_source.<locals>.uptodate", 0)] = LoopSpec(inv, havoc={n: "str" for n in sorted(names)}, name="shadow_loop")
 
     def paths(self, I):
         pre, outs = FSGetSource.paths(self, I)
@@ -1086,32 +1111,78 @@ class FSCheck(FSGetSource):
     def opened_path(self, out):
         return to_term(A.calls(out, "open")[0].args[0], "str")
 
-    def p_check(self, pre, out):
-        """True iff the file that was read still exists with the mtime recorded when it was read; False (not an
-        exception) when it is gone; only that file is examined"""
-        if out.raised or unexpected(out):
-            return False
-        T = self.opened_path(out)
-        conj = []
-        for e in later_events(out):
-            if e.kind == "call":
-                if e.name != "os.path.getmtime":
-                    return False
-                conj.append(to_term(e.args[0], "str") == T)
-        if not conj:
-            return False
-        same = z3.And(fs2_exists(T), fs2_mtime(T) == fs_mtime(T))
-        return z3.And(to_term(out.value, "bool") == same, *conj)
+    # the search path that had the file when it was loaded: index i0 with T == cand(i0), the first one (hypothesis of both clauses)
+    def hit_hyp(self, T, i0):
+        return z3.And(0 <= i0, i0 < self.SPn, T == self.cand(i0), self.none_before(i0))
 
-    posts = [("true_iff_mtime_unchanged", p_check)]
+    def shadowed(self, i0):
+        """a file of the same name now exists in a search path that is consulted BEFORE the one the template came from:
+        it is the loader's current source for the name (an addition in the loader)"""
+        j = z3.Int(fresh_name("j"))
+        return z3.Exists([j], z3.And(0 <= j, j < i0, fs2_exists(self.cand(j))))
+
+    def later_access(self, out, T):
+        """structural part: the check only examines the loaded file and candidates of the same name in the search paths"""
+        if out.raised or unexpected(out):
+            return None
+        conj, n_mtime = [], 0
+        for e in later_events(out):
+            if e.kind != "call":
+                continue
+            if e.name in ("os.path.getmtime", "os.stat"):
+                n_mtime += 1
+                conj.append(to_term(e.args[0], "str") == T)
+            elif e.name == "os.path.isfile":
+                i = z3.Int(fresh_name("i"))
+                conj.append(z3.Exists([i], z3.And(0 <= i, i < self.SPn, to_term(e.args[0], "str") == self.cand(i))))
+            elif e.name != "posixpath.join":
+                return None
+        return conj
+
+    def p_check(self, pre, out):
+        """(no file of that name has appeared in an earlier search path:) True iff the file that was read still exists
+        with the mtime recorded when it was read; False (not an exception) when it is gone"""
+        T = self.opened_path(out)
+        conj = self.later_access(out, T)
+        if conj is None:
+            return False
+        i0 = z3.Int(fresh_name("i0"))
+        same = z3.And(fs2_exists(T), fs2_mtime(T) == fs_mtime(T))
+        return z3.Implies(z3.And(self.hit_hyp(T, i0), z3.Not(self.shadowed(i0))), z3.And(to_term(out.value, "bool") == same, *conj))
+
+    def p_shadow(self, pre, out):
+        """False when a file of the same name has appeared in a search path consulted earlier (the loader would now
+        return that file: the cached template is not built from the current source)"""
+        T = self.opened_path(out)
+        if self.later_access(out, T) is None:
+            return False
+        i0 = z3.Int(fresh_name("i0"))
+        return z3.Implies(z3.And(self.hit_hyp(T, i0), self.shadowed(i0)), z3.Not(to_term(out.value, "bool")))
+
+    posts = [("true_iff_mtime_unchanged", p_check), ("false_when_shadowed_by_earlier_search_path", p_shadow)]
 
     def concretize(self, model, pre, out):
         if out is None:
-            return {"op": "fs_check", "exists_later": False, "same_mtime": False, "mtime_order": 0}
+            return {"op": "fs_check", "exists_later": False, "same_mtime": False, "mtime_order": 0, "shadowed": False}
         T = self.opened_path(out)
+        # shadowed in the counter-model: some candidate before the hit exists now
+        sh = False
+        n = model_value(model, self.SPn)
+        for i in range(max(0, min(8, n if isinstance(n, int) else 0))):
+            c = self.cand(z3.IntVal(i))
+            if model_value(model, c == T) is True:
+                break
+            if model_value(model, fs2_exists(c)) is True:
+                sh = True
         return {"op": "fs_check", "exists_later": model_value(model, fs2_exists(T)) is True,
                 "same_mtime": model_value(model, fs2_mtime(T) == fs_mtime(T)) is True,
-                "mtime_order": mtime_order(model, T)}
+                "mtime_order": mtime_order(model, T), "shadowed": sh}
+
+    def finding_key(self, res):
+        w = res.witness or {}
+        if "false_when_shadowed" in res.name and w.get("exists_later") and w.get("same_mtime"):
+            return "shadowed-by-earlier-search-path"
+        return "other"
 
     def replay(self, w):
         return replay_fs_check(w, "fs")
@@ -1150,7 +1221,7 @@ class PkgCheck(PkgGetSource):
         conj = []
         for e in later_events(out):
             if e.kind == "call":
-                if e.name not in ("os.path.getmtime", "os.path.isfile"):
+                if e.name not in ("os.path.getmtime", "os.path.isfile", "os.stat"):
                     return False
                 conj.append(to_term(e.args[0], "str") == T)
         if not conj:
@@ -1171,27 +1242,34 @@ class PkgCheck(PkgGetSource):
 
 
 def mtime_order(model, T):
-    """-1: the file now has an OLDER mtime than the one recorded, 0: the same, 1: a newer one"""
+    """difference (seconds) between the file's mtime now and the one recorded when it was read, as the counter-model has it:
+    negative = OLDER, 0 = same, positive = newer; a fraction = a change inside the same whole second"""
+    from contracts.c28 import TICKS_PER_SECOND
     a, b = model_value(model, fs2_mtime(T)), model_value(model, fs_mtime(T))
-    return (a > b) - (a < b) if isinstance(a, int) and isinstance(b, int) else 0
+    if not (isinstance(a, int) and isinstance(b, int)) or a == b:
+        return 0
+    sign = 1 if a > b else -1
+    return sign * 0.25 if a // TICKS_PER_SECOND == b // TICKS_PER_SECOND else sign * 2
 
 
 def replay_fs_check(w, which):
     log, bad = [], False
-    first = (w.get("exists_later", False), w.get("mtime_order", 0 if w.get("same_mtime") else 1))
-    # deleted; unchanged; replaced by a NEWER file; replaced by an OLDER file (restored backup, checkout of an old revision)
-    cases = [first, (True, 0), (True, 1), (True, -1), (False, 0)]
-    for exists, order in cases:
-        same = order == 0
+    first = (w.get("exists_later", False), w.get("mtime_order", 0 if w.get("same_mtime") else 1), bool(w.get("shadowed")))
+    # deleted; unchanged; replaced by a NEWER file; by an OLDER one (restored backup, old checkout); saved again within
+    # the same second (sub-second mtime step, forwards and backwards)
+    cases = [first] + [(e, d, False) for e, d in ((True, 0), (True, 2), (True, -2), (True, 0.25), (True, -0.25), (True, 0.001), (False, 0))]
+    for exists, delta, shadow in cases:
+        same = delta == 0
+        path, early = "/srv/t/a.html", "/srv/first/a.html"
         if which == "fs":
             ld = object.__new__(L.FileSystemLoader)
-            ld.searchpath, ld.encoding, ld.followlinks = ["/srv/t"], "utf-8", False
-            path = "/srv/t/a.html"
+            # two search paths: the template is found in the SECOND one
+            ld.searchpath, ld.encoding, ld.followlinks = ["/srv/first", "/srv/t"], "utf-8", False
         else:
             ld = object.__new__(L.PackageLoader)
             ld._template_root, ld._archive, ld._loader, ld.encoding, ld.package_name, ld.package_path = "/srv/t", None, None, "utf-8", "p", "t"
-            path = "/srv/t/a.html"
-        with fake_fs("posix", [path], mtime=5.0) as fs:
+            shadow = False
+        with fake_fs("posix", [path], mtime=5.5) as fs:
             got = run_native(lambda: ld.get_source(None, "a.html"))
             if got[0] != "ok" or not callable(got[1][2]):
                 return (True, f"{which} loader get_source('a.html') with the file present: {got!r}")
@@ -1199,15 +1277,20 @@ def replay_fs_check(w, which):
             if not exists:
                 fs.files.discard(path)
             elif not same:
-                fs.mtime = 5.0 + 2.0 * order
+                fs.mtime = 5.5 + delta
+            if shadow:
+                fs.files.add(early)   # an addition in the loader: the first search path now has the name too
+                current = run_native(lambda: ld.get_source(None, "a.html"))
             del fs.log[:]
             # the closure is defined in jinja2.loaders, so the fake file system still answers it
             g2 = run_native(check)
             touched = {p for _, p in fs.log}
-        want = ("ok", bool(exists and same))
-        if g2 != want or touched - {path}:
+        want = ("ok", bool(exists and same and not shadow))
+        if g2 != want or touched - {path, early}:
             bad = True
-            log.append(f"file {'present' if exists else 'deleted'}, mtime {'same' if same else ('newer' if order > 0 else 'OLDER')} than when loaded: check gives {g2!r} (touched {sorted(touched)!r}), spec {want!r}")
+            how = "same" if same else f"{'newer' if delta > 0 else 'OLDER'} by {abs(delta)} s"
+            extra = f", and {early!r} ADDED in the earlier search path (the loader now returns {current[1][0] if current[0] == 'ok' else current!r})" if shadow else ""
+            log.append(f"file {'present' if exists else 'deleted'}, mtime {how} than when loaded{extra}: check gives {g2!r} (touched {sorted(touched)!r}), spec {want!r}")
     return (bad, "; ".join(log) or f"{which} loader check agrees with the statement")
 
 
@@ -1548,9 +1631,10 @@ def run_history(kind, cap, auto, ops, tmp=None):
         loader = L.FileSystemLoader(tmp)
     env = jinja2.Environment(loader=loader, cache_size=cap, auto_reload=auto)
     ref = RefCache(cap, auto)
+    stamps = {}
     for step, (op, arg) in enumerate(ops):
-        if op in ("mod", "old"):
-            # "old": the new content carries an OLDER mtime than the one loaded (restored backup / old checkout)
+        if op in ("mod", "old", "sub"):
+            # "sub": the new content's mtime differs by less than a second from the previous one;  "old": the new content carries an OLDER mtime than the one loaded (restored backup / old checkout)
             src[arg] = next(counter)
             if kind == "dict":
                 mapping[arg] = f"{arg}{src[arg]}"
@@ -1558,7 +1642,12 @@ def run_history(kind, cap, auto, ops, tmp=None):
                 p = os.path.join(tmp, arg)
                 with open(p, "w") as f:
                     f.write(f"{arg}{src[arg]}")
-                stamp = 1000 + src[arg] if op == "mod" else 1000 - src[arg]
+                if op == "sub":
+                    # saved again within the same second: a millisecond step from the current stamp
+                    stamp = stamps.get(arg, 1000) + 0.001 * src[arg]
+                else:
+                    stamp = 1000 + src[arg] if op == "mod" else 1000 - src[arg]
+                stamps[arg] = stamp
                 os.utime(p, (stamp, stamp))
             continue
         if op == "del":
@@ -1607,7 +1696,7 @@ def bounded_histories(task, tier, seed):
         for kind in (task.loader_kind,):
             d = depth if kind != "fs" else depth - 1
             for L_ in range(1, d + 1):
-                for ops in itertools.product(HIST_OPS + ([("old", "a")] if kind == "fs" else []), repeat=L_):
+                for ops in itertools.product(HIST_OPS + ([("old", "a"), ("sub", "a")] if kind == "fs" else []), repeat=L_):
                     if ops[-1][0] not in ("get", "select"):
                         continue  # a history is only observed at a lookup
                     for cap in (0, 1, 2, -1):
@@ -1642,7 +1731,7 @@ def replay_history(w):
 
 HIST_BOUND = ("all histories of length <= 4 (thorough 5; FileSystemLoader one less) ending in a lookup over 2 names with get / select([a,b]) / "
               "select([b,a]) / modify / delete, cache sizes 0, 1, 2, unbounded, auto_reload on/off, on DictLoader, FunctionLoader (with and "
-              "without check) and FileSystemLoader (real files, forced mtime changes, both newer and OLDER than the loaded one); rendered output and cache keys vs the reference model")
+              "without check) and FileSystemLoader (real files, forced mtime changes, newer, OLDER, and differing by a millisecond within the same second); rendered output and cache keys vs the reference model")
 
 
 def hist_task(kind):
